@@ -249,10 +249,19 @@ func Upgrade8To10(old, new string, logger *log.Logger) (retErr error) {
 			if err := os.RemoveAll(tmpName(new)); err != nil {
 				return fmt.Errorf("failed to remove temporary snapshot directory %s: %s", tmpName(new), err)
 			}
+			if err := verifhook.Hit("upgrade8to10.cleanup.after-tmp-remove"); err != nil {
+				return err
+			}
 			if err := os.RemoveAll(old); err != nil {
 				return fmt.Errorf("failed to remove old snapshot directory %s: %s", old, err)
 			}
+			if err := verifhook.Hit("upgrade8to10.cleanup.after-old-remove"); err != nil {
+				return err
+			}
 			os.Remove(planPath)
+			if err := verifhook.Hit("upgrade8to10.cleanup.after-plan-remove"); err != nil {
+				return err
+			}
 			logger.Printf("completed cleanup of interrupted upgrade of v8 snapshot directory to %s", new)
 			stats.Add(upgradeOk, 1)
 			return nil
